@@ -595,7 +595,42 @@ class Inliner:
         self.inlined.append(name)
         return out
 
+    def _hoist_head_call(self, s):
+        """`return H(a).m(v)` with H an inlinable helper: the helper call is
+        the first thing evaluated, so it can be given its own statement
+        `__head = H(a); return __head.m(v)`."""
+        v = getattr(s, "value", None) if isinstance(
+            s, (ast.Return, ast.Assign, ast.Expr)) else None
+        if not isinstance(v, ast.Call):
+            return None
+        # walk down the receiver chain: call -> attribute -> call ...
+        node, parent_attr = v, None
+        while True:
+            f = node.func if isinstance(node, ast.Call) else None
+            if isinstance(f, ast.Attribute) and isinstance(f.value, ast.Call):
+                inner = f.value
+                r = self._resolve(inner)
+                if r is not None and r[1] not in self.primitives and not \
+                        self._is_gen(r[2]) and not isinstance(
+                            r[2], ast.AsyncFunctionDef) and self._single_return(
+                                r[2]) is None:
+                    self.n += 1
+                    tmp = "__head_%d" % self.n
+                    pre = ast.copy_location(ast.Assign(
+                        [ast.Name(tmp, ast.Store())], inner), s)
+                    f.value = ast.copy_location(ast.Name(tmp, ast.Load()),
+                                                inner)
+                    ast.fix_missing_locations(pre)
+                    return [pre, s]
+                node = inner
+                continue
+            return None
+
     def _stmt(self, s, stack, depth):
+        hh = self._hoist_head_call(s)
+        if hh is not None:
+            return self._stmt(hh[0], stack, depth) + self._stmt(
+                hh[1], stack, depth)
         lg = self._listgen(s, stack, depth)
         if lg is not None:
             return lg
